@@ -165,26 +165,39 @@ PROPS = {
 }
 
 # Scenario families added after the rule texts above were written (hunt waves 2 and 3, DESIGN.md 9).
-TRANSPORT_HABITS = ("transport habits drawn per call: in a sixth of the non-bidi calls a ResponseWriter without Flush (on HTTP/1.1 net/http's rule "
+TRANSPORT_HABITS = ("transport habits drawn per call: transit time (the handler starts 3-300 us after Do), an HTTPClient that reports the "
+                    "context's end in its own words (a fifth of the calls), on HTTP/1.1 a cancellation that reaches the server before the "
+                    "client's socket is closed (half of the calls); in a sixth of the non-bidi calls a ResponseWriter without Flush (on HTTP/1.1 net/http's rule "
                     "for unchunked responses applies: trailers added after the first write are lost unless announced), in half of the HTTP/1.1 calls a "
                     "server that closes the connection on a client that keeps uploading after it has the answer")
 ADDENDA = {
+    "C07": "unknown-compression requests include lists of codings on one header line and on two",
+    "C10": "a re-sent Request may carry a deadline too far away for the header to express",
+    "C19": "recovery functions whose error quotes a panic value that is not valid UTF-8",
     "C01": "codec marshal failures (plain and wrapping io.EOF) on some messages; " + TRANSPORT_HABITS,
-    "C02": "details whose type is not linked into the binary or that have no JSON form (the two listed open findings); errors received from another "
+    "C02": "errors (plain or coded) whose cause wraps io.EOF; details whose type is not linked into the binary or that have no JSON form (the two listed open findings); errors received from another "
            "call and passed on; " + TRANSPORT_HABITS,
-    "C04": "after a faulted delivery the program may keep receiving: the outcome must stay an error",
-    "C05": "world (0) includes gateway handlers that return the Response, or pass on the Request, they got from a backend call in another protocol and "
+    "C04": "cut conditions also include a transport error that has io.EOF in its chain and a reset with NO_ERROR; after a faulted delivery the program may keep receiving: the outcome must stay an error",
+    "C05": "plain Go errors and error texts that are not valid UTF-8 in the live worlds (code and the rest of the text must arrive); the "
+           "reference server answers before reading the request in a third of its successful answers; world (0) includes gateway handlers that return the Response, or pass on the Request, they got from a backend call in another protocol and "
            "encoding: the hop's own protocol and entity headers must describe the hop; " + TRANSPORT_HABITS,
     "C06": "a third of the non-2xx answers (not for unary Connect calls) come from a server that flushes its answer and reads the request to its end "
            "before ending the response; over HTTP/2 the transport has stopped uploading at the sight of the status, so that end comes only if the "
            "client lets go of the response",
-    "C08": "some Requests are re-sent through a second client with another compression set; some compression constructors are nil",
-    "C11": "unary Connect error bodies over the client's read limit or undecodable (the metadata must survive)",
+    "C08": "some Requests are re-sent through a second client with another compression set and possibly another protocol; some compression "
+           "constructors are nil; instrumented (de)compressors report any use between Put and the next Get",
+    "C11": "metadata under well-known HTTP field names the protocols do not use (Content-Language, Content-Location, Allow, Link, Etag, "
+           "Server-Timing); unary Connect error bodies over the client's read limit or undecodable (the metadata must survive)",
     "C13": "one client may be misconfigured so that every call fails locally (each call must get its own error value); clients may annotate the errors "
            "they receive",
-    "C14": "calls refused by the protocol layer (compression the handler lacks), first messages that cannot be marshalled, programs that abandon a "
+    "C14": "a third of the calls run under a context that can be cancelled but outlives the call (the library's watcher must be gone "
+           "when the call is); Do failures (nothing answers); calls refused by the protocol layer (compression the handler lacks), first messages that cannot be marshalled, programs that abandon a "
            "cancelled call without closing it, lock-step bidi programs; " + TRANSPORT_HABITS,
-    "C15": "some messages cannot be marshalled: an operation started after the instant must still report the context",
+    "C15": "some messages cannot be marshalled: an operation started after the instant must still report the context; half of the canceller "
+           "runs make the canceller eligible only after a tape-chosen stretch of fake time (the instant lands anywhere in the life of the call); "
+           "a focused family - HTTP/1.1, a receiver blocked on a quiet stream, a handler that stops when its context ends (returning the "
+           "context's error, or nil), a slow library watcher - in which a clean end or a foreign code handed over by the transport after the "
+           "instant is a violation; " + TRANSPORT_HABITS,
 }
 for _k, _v in ADDENDA.items():
     PROPS[_k]["rule"] += "; ALSO: " + _v
